@@ -1,5 +1,7 @@
 pub mod engines;
 pub mod gen;
+pub mod history;
+pub mod hooks;
 pub mod prims;
 pub mod props;
 pub mod refmodel;
